@@ -332,3 +332,25 @@ def call_unit(prop):
     return Unit(f'{prop}.call', ADAPTERS_PY, 'gclmulchunker.__call__', setup, call_post(prop), loops=call_loops(holder),
                 on_yield=call_on_yield, prop=prop,
                 local_types={'params': Opt(BYTES), 'chunk': Opt(BYTES), 'next_chunk': Opt(BYTES), 'buffer': BYTES})
+
+
+# ------------------------------------------------------------------ lemmas over the two contracts
+def c10_lemmas(prop):
+    def build(add):
+        m, M, s, r, R = z3.Ints('m M s r R')
+        final = z3.Bool('final')
+        nontail = z3.Or(z3.And(z3.Not(final), s >= M), z3.And(final, s >= 2 * M))
+        contract = [Q(m, M), 0 <= r, r <= s, z3.Implies(r == 0, z3.Or(z3.And(z3.Not(final), s < M), s == 0)),
+                    z3.Implies(nontail, z3.And(m <= r, r <= M, r % 4 == 0))]
+        # the adapter hands next_cut the not yet chunked bytes from stream position p; R = total - p remain;
+        # s <= R and final => s == R (C10.call.final_flag + lossless invariant)
+        situation = [0 <= s, s <= R, z3.Implies(final, s == R), R >= 2 * M, r != 0]
+        add('bounds_outside_tail', contract + situation, z3.And(m <= r, r <= M, r % 4 == 0))
+        # segmentation independence (step): in that situation the call is in the non-tail regime, where the
+        # result is a function of (m, M, key, buffer[0 : roundup4(M))) only (C10.next_cut_structure.local,
+        # reads_in_bounds) -> same position, same bytes => same chunk for any two segmentations
+        add('decided_in_nontail_regime', contract + situation, nontail)
+        F = z3.Function('cut_fn', z3.IntSort(), z3.IntSort(), z3.StringSort(), z3.StringSort(), z3.IntSort())
+        w1, w2, k1, k2 = z3.Strings('w1 w2 k1 k2')
+        add('same_window_same_cut', [w1 == w2, k1 == k2], F(m, M, k1, w1) == F(m, M, k2, w2))
+    return Lemma(f'{prop}.lemma', build, prop=prop)
